@@ -147,6 +147,12 @@ impl BuildJob<'_> {
                 log_warn!("{:?} - old: {:?}\n", &nice_t, &sf.stamp);
                 log_warn!("{:?} - old: {:?}\n", &nice_t, &newstamp);
                 sf.set_override(ptx.state().env())?;
+            } else if sf.stamp.as_ref() != Some(&newstamp) {
+                // Edited by hand again since the override was noticed: record the
+                // new stamp as one change in this run (the override stays), so that
+                // dependents are rebuilt once and not on every later run.
+                sf.set_stamp(newstamp.clone());
+                sf.changed_runid = ptx.state().env().runid;
             }
             sf.save(&mut ptx)?;
             // Fall through and treat it the same as a static file.
